@@ -22,7 +22,11 @@ func (vc *VC) lockOp(fr *Frame, recv SV, mode int, acquire bool, pos token.Pos) 
 	}
 	lv := recv.LV
 	if lv == nil {
-		vc.fail("lock operation on a mutex whose owner is not statically known")
+		// a mutex reached through a pointer value (e.g. the package-level `allocsMu *sync.Mutex`):
+		// it has no declared invariant and guards nothing the contracts speak about, so the
+		// operation is a no-op for the sequential state; recorded as an assumption
+		vc.noteAssumption("a mutex held through a pointer variable (no declared invariant) is treated as a no-op: " + vc.root.String())
+		return
 	}
 	key := lockKey(lv)
 	li := vc.eng.lockInvFor(lv)
